@@ -754,11 +754,11 @@ func TestVerifC05Serialize(t *testing.T) {
 				evals++
 			}
 			judge(suffix, "", nonorm)
-			if v.Side == "req" && v.Kind != "trailer" && (c05URISlots[v.Slot] || v.Kind == "uri" || v.Kind == "name" || rng.Intn(clientEvery) == 0) {
+			if v.Side == "req" && v.Kind != "trailer" && (c05URISlots[v.Slot] || v.Kind == "uri" || (v.Kind == "name" && nonorm) || rng.Intn(clientEvery) == 0) {
 				evals++
 				judge("@client"+suffix, "client", nonorm)
 			}
-			if v.Side == "resp" && v.Kind != "trailer" && (v.Kind == "name" || rng.Intn(clientEvery) == 0) {
+			if v.Side == "resp" && v.Kind != "trailer" && ((v.Kind == "name" && nonorm) || rng.Intn(clientEvery) == 0) {
 				evals++
 				judge("@server"+suffix, "server", nonorm)
 			}
